@@ -1,7 +1,8 @@
 (* C02 — compaction, snapshot and restore never change the replicated state.
    M-FSM (Fsm/Fsm.v) over ANY deterministic machine (S, init, apply, marshal, unmarshal, exp_of) with
    - the Marshal/Unmarshal round trip (C03),
-   - only Config messages change Config.SessionExpiration,
+   - only a Config message that parses AND follows the revision in force (e_rev = rev_of s + 1, as applyRobustMessage
+     checks since b3bad2c) changes Config.SessionExpiration; every other entry leaves it alone,
    - a fresh server's SessionExpiration is the 10 minutes FSM.Snapshot assumes for an unset copy;
    for every log with index gaps (log_ok: strictly increasing indexes >= 1) and every schedule of
    {Apply next, Snapshot t + Persist ok|fail, Restore latest, Restart} that respects raft's contract
@@ -17,15 +18,15 @@ Import ListNotations.
 
 (* (state) the live server equals the plain replay of the applied prefix *)
 Theorem C02_state : forall (S O B : Type) (init : S) (apply : S -> entry -> S * list O)
-    (marshal : S -> N -> B) (unmarshal : B -> option (S * N)) (exp_of : S -> N),
+    (marshal : S -> N -> B) (unmarshal : B -> option (S * N)) (exp_of rev_of : S -> N),
   (forall s k, unmarshal (marshal s k) = Some (s, k)) ->
-  (forall s e, sets_exp e = false -> exp_of (fst (apply s e)) = exp_of s) ->
+  (forall s e, sets_exp (rev_of s) e = false -> exp_of (fst (apply s e)) = exp_of s) ->
   eff_exp (exp_of init) = ten_minutes ->
   forall v : variant, fix_d3 v = true -> fix_d15 v = true ->
   forall (L : list entry) (sigma : list step),
   log_ok L ->
-  schedule_ok S O B init apply marshal unmarshal exp_of v L sigma (world0 S O B init) ->
-  let w := run S O B init apply marshal unmarshal exp_of v L sigma (world0 S O B init) in
+  schedule_ok S O B init apply marshal unmarshal exp_of rev_of v L sigma (world0 S O B init) ->
+  let w := run S O B init apply marshal unmarshal exp_of rev_of v L sigma (world0 S O B init) in
   server (w_fsm w) = replay S O init apply (firstn (w_applied w) L).
 Proof. exact fsm_state. Qed.
 Print Assumptions C02_state.
@@ -33,15 +34,15 @@ Print Assumptions C02_state.
 (* (output) for every index still in the node's log copy the output store serves exactly the batch of
    the plain replay; for every other index it serves nothing *)
 Theorem C02_output : forall (S O B : Type) (init : S) (apply : S -> entry -> S * list O)
-    (marshal : S -> N -> B) (unmarshal : B -> option (S * N)) (exp_of : S -> N),
+    (marshal : S -> N -> B) (unmarshal : B -> option (S * N)) (exp_of rev_of : S -> N),
   (forall s k, unmarshal (marshal s k) = Some (s, k)) ->
-  (forall s e, sets_exp e = false -> exp_of (fst (apply s e)) = exp_of s) ->
+  (forall s e, sets_exp (rev_of s) e = false -> exp_of (fst (apply s e)) = exp_of s) ->
   eff_exp (exp_of init) = ten_minutes ->
   forall v : variant, fix_d3 v = true -> fix_d15 v = true ->
   forall (L : list entry) (sigma : list step),
   log_ok L ->
-  schedule_ok S O B init apply marshal unmarshal exp_of v L sigma (world0 S O B init) ->
-  let w := run S O B init apply marshal unmarshal exp_of v L sigma (world0 S O B init) in
+  schedule_ok S O B init apply marshal unmarshal exp_of rev_of v L sigma (world0 S O B init) ->
+  let w := run S O B init apply marshal unmarshal exp_of rev_of v L sigma (world0 S O B init) in
   forall i : N,
     get i (outstore (w_fsm w)) =
     if existsb (N.eqb i) (keys (ircstore (w_fsm w)))
@@ -54,15 +55,15 @@ Print Assumptions C02_output.
    (unmodified), nothing unapplied lies at or below it, and the state filed under it is the replay of
    everything at or below it: nothing un-folded is dropped, nothing folded is retained *)
 Theorem C02_exact : forall (S O B : Type) (init : S) (apply : S -> entry -> S * list O)
-    (marshal : S -> N -> B) (unmarshal : B -> option (S * N)) (exp_of : S -> N),
+    (marshal : S -> N -> B) (unmarshal : B -> option (S * N)) (exp_of rev_of : S -> N),
   (forall s k, unmarshal (marshal s k) = Some (s, k)) ->
-  (forall s e, sets_exp e = false -> exp_of (fst (apply s e)) = exp_of s) ->
+  (forall s e, sets_exp (rev_of s) e = false -> exp_of (fst (apply s e)) = exp_of s) ->
   eff_exp (exp_of init) = ten_minutes ->
   forall v : variant, fix_d3 v = true -> fix_d15 v = true ->
   forall (L : list entry) (sigma : list step),
   log_ok L ->
-  schedule_ok S O B init apply marshal unmarshal exp_of v L sigma (world0 S O B init) ->
-  let w := run S O B init apply marshal unmarshal exp_of v L sigma (world0 S O B init) in
+  schedule_ok S O B init apply marshal unmarshal exp_of rev_of v L sigma (world0 S O B init) ->
+  let w := run S O B init apply marshal unmarshal exp_of rev_of v L sigma (world0 S O B init) in
   let pre := firstn (w_applied w) L in
   exists base : N,
     ircstore (w_fsm w) = ents_store (filter (gt_idx base) (cmds pre)) /\
@@ -78,18 +79,18 @@ Print Assumptions C02_exact.
    deletes exactly those, leaves the live server alone, and its state message is the plain replay of
    everything no longer stored *)
 Theorem C02_cut : forall (S O B : Type) (init : S) (apply : S -> entry -> S * list O)
-    (marshal : S -> N -> B) (unmarshal : B -> option (S * N)) (exp_of : S -> N),
+    (marshal : S -> N -> B) (unmarshal : B -> option (S * N)) (exp_of rev_of : S -> N),
   (forall s k, unmarshal (marshal s k) = Some (s, k)) ->
-  (forall s e, sets_exp e = false -> exp_of (fst (apply s e)) = exp_of s) ->
+  (forall s e, sets_exp (rev_of s) e = false -> exp_of (fst (apply s e)) = exp_of s) ->
   eff_exp (exp_of init) = ten_minutes ->
   forall v : variant, fix_d3 v = true -> fix_d15 v = true ->
   forall (L : list entry) (sigma : list step),
   log_ok L ->
-  schedule_ok S O B init apply marshal unmarshal exp_of v L sigma (world0 S O B init) ->
-  let w := run S O B init apply marshal unmarshal exp_of v L sigma (world0 S O B init) in
+  schedule_ok S O B init apply marshal unmarshal exp_of rev_of v L sigma (world0 S O B init) ->
+  let w := run S O B init apply marshal unmarshal exp_of rev_of v L sigma (world0 S O B init) in
   let pre := firstn (w_applied w) L in
   forall (t : Z) f' sn,
-  fsm_snapshot S O B init apply marshal unmarshal exp_of v t (w_fsm w) = Some (f', sn) ->
+  fsm_snapshot S O B init apply marshal unmarshal exp_of rev_of v t (w_fsm w) = Some (f', sn) ->
   let hz := (t - (eff_exp (exp_of (replay S O init apply pre)) + expire_interval))%Z in
   exists base base' : N,
     ircstore (w_fsm w) = ents_store (filter (gt_idx base) (cmds pre)) /\
@@ -109,18 +110,18 @@ Print Assumptions C02_cut.
    filed under the number of entries applied when Snapshot() ran (the schedules of the theorems above contain such
    steps: SSnapshot t k ok) *)
 Theorem C02_persist_late : forall (S O B : Type) (init : S) (apply : S -> entry -> S * list O)
-    (marshal : S -> N -> B) (unmarshal : B -> option (S * N)) (exp_of : S -> N),
+    (marshal : S -> N -> B) (unmarshal : B -> option (S * N)) (exp_of rev_of : S -> N),
   (forall s k, unmarshal (marshal s k) = Some (s, k)) ->
-  (forall s e, sets_exp e = false -> exp_of (fst (apply s e)) = exp_of s) ->
+  (forall s e, sets_exp (rev_of s) e = false -> exp_of (fst (apply s e)) = exp_of s) ->
   eff_exp (exp_of init) = ten_minutes ->
   forall v : variant, fix_d3 v = true -> fix_d15 v = true ->
   forall (L : list entry) (sigma : list step),
   log_ok L ->
-  schedule_ok S O B init apply marshal unmarshal exp_of v L sigma (world0 S O B init) ->
-  let w := run S O B init apply marshal unmarshal exp_of v L sigma (world0 S O B init) in
+  schedule_ok S O B init apply marshal unmarshal exp_of rev_of v L sigma (world0 S O B init) ->
+  let w := run S O B init apply marshal unmarshal exp_of rev_of v L sigma (world0 S O B init) in
   forall (t : Z) (k : nat) f' sn,
-  fsm_snapshot S O B init apply marshal unmarshal exp_of v t (w_fsm w) = Some (f', sn) ->
-  persist S O B (w_fsm (apply_n S O B apply exp_of L k (mkWorld S O B f' (w_applied w) (w_persisted w)))) sn (w_applied w) =
+  fsm_snapshot S O B init apply marshal unmarshal exp_of rev_of v t (w_fsm w) = Some (f', sn) ->
+  persist S O B (w_fsm (apply_n S O B apply exp_of rev_of L k (mkWorld S O B f' (w_applied w) (w_persisted w)))) sn (w_applied w) =
   persist S O B f' sn (w_applied w).
 Proof. exact fsm_persist_late. Qed.
 Print Assumptions C02_persist_late.
@@ -137,7 +138,7 @@ Theorem C02_refuted_pinned_horizon : exists L sigma t e r f' sn, log_ok L /\ d_v
   let w := d_run pinned L sigma in
   ircstore (w_fsm w) = (e_idx e, e) :: r /\
   (t - (eff_exp (d_exp_of (server (w_fsm w))) + expire_interval) < e_ts e)%Z /\
-  fsm_snapshot dS dO dB d_init d_apply d_marshal d_unmarshal d_exp_of pinned t (w_fsm w) = Some (f', sn) /\
+  fsm_snapshot dS dO dB d_init d_apply d_marshal d_unmarshal d_exp_of d_rev_of pinned t (w_fsm w) = Some (f', sn) /\
   ircstore f' = [].
 Proof. exact refuted_pinned_d15. Qed.
 Print Assumptions C02_refuted_pinned_horizon.
